@@ -509,6 +509,39 @@ class _IsinstSplit(__import__('ast').NodeTransformer):
 
 
 
+class _CmpInvert(__import__('ast').NodeTransformer):
+  """if a == b: A else: B  ->  if a != b: B else: A  (every two-armed if /
+  conditional expression whose test is one comparison; is / is not, in /
+  not in, < / >= likewise)"""
+
+  def _neg(self, t):
+    import ast
+    NEG = {ast.Eq: ast.NotEq, ast.NotEq: ast.Eq, ast.Is: ast.IsNot,
+           ast.IsNot: ast.Is, ast.In: ast.NotIn, ast.NotIn: ast.In,
+           ast.Lt: ast.GtE, ast.GtE: ast.Lt, ast.Gt: ast.LtE, ast.LtE: ast.Gt}
+    if isinstance(t, ast.Compare) and len(t.ops) == 1 and type(
+        t.ops[0]) in NEG:
+      t.ops = [NEG[type(t.ops[0])]()]
+      return True
+    return False
+
+  def visit_If(self, n):
+    import ast
+    self.generic_visit(n)
+    if n.orelse and not (len(n.orelse) == 1 and isinstance(n.orelse[0],
+                                                           ast.If)):
+      if self._neg(n.test):
+        n.body, n.orelse = n.orelse, n.body
+    return n
+
+  def visit_IfExp(self, n):
+    self.generic_visit(n)
+    if self._neg(n.test):
+      n.body, n.orelse = n.orelse, n.body
+    return n
+
+
+
 GLOBAL_NEUTRALS = [('ast.unparse round trip', None),
                    ('logging call at the top of every function, annotated '
                     'parameters', _LogCall),
@@ -523,7 +556,9 @@ GLOBAL_NEUTRALS = [('ast.unparse round trip', None),
                     _EarlyReturn),
                    ('code after `if ...: return` moved into an else',
                     _ElseAfterReturn),
-                   ('isinstance with a tuple split into an or', _IsinstSplit)]
+                   ('isinstance with a tuple split into an or', _IsinstSplit),
+                   ('comparison of two-armed conditionals negated, arms '
+                    'swapped', _CmpInvert)]
 
 
 def run_roundtrip(repo, pid, transformer=None):
